@@ -41,7 +41,7 @@ type runCfg struct {
 	workers, timeoutMS, maxInstr                              int
 	trace, mapReverse, thorough                               bool
 	deadline                                                  int
-	prefix                                                    string
+	prefix, extra                                             string
 }
 
 func cmdRun(args []string) int {
@@ -62,6 +62,7 @@ func cmdRun(args []string) int {
 	fs.IntVar(&c.deadline, "deadline", 120, "per harness deadline in seconds")
 	fs.BoolVar(&c.trace, "sites", false, "report decision sites")
 	fs.StringVar(&c.prefix, "prefix", "", "forced first decisions, comma separated")
+	fs.StringVar(&c.extra, "extra", "", "extra overlays: pkgdir=harnessdir[,pkgdir=harnessdir]")
 	fs.BoolVar(&c.thorough, "thorough", false, "thorough tier shapes")
 	prof := fs.String("cpuprofile", "", "write cpu profile")
 	fs.Parse(args)
@@ -140,7 +141,14 @@ type harnessOpts func(name string, o *interp.Options)
 
 func runHarnesses(c runCfg, tweak harnessOpts) ([]*interp.Result, error) {
 	t0 := time.Now()
-	ld, err := loader.Load(loader.Config{Repo: c.repo, Verif: c.verif, Pkg: c.pkg, HarnessDir: c.harness, BuildDir: c.verif + "/build"})
+	extra := map[string]string{}
+	if c.extra != "" {
+		for _, kv := range strings.Split(c.extra, ",") {
+			p := strings.SplitN(kv, "=", 2)
+			extra[p[0]] = p[1]
+		}
+	}
+	ld, err := loader.Load(loader.Config{Repo: c.repo, Verif: c.verif, Pkg: c.pkg, HarnessDir: c.harness, BuildDir: c.verif + "/build", Extra: extra})
 	if err != nil {
 		return nil, err
 	}
